@@ -135,6 +135,7 @@ type exchange struct {
 	pieces   []int // split of the body into writes
 	newConn  bool
 	host            string // Host header the client sends ("" = helios.test)
+	headPause       time.Duration // the client pauses this long in the middle of the request head
 	stallUpload     bool // at abortUploadAt the client stops sending but keeps its connection open
 	abortUploadAt   int // -1: no
 	abortDownloadAt int // -1: no; close after this many body bytes
@@ -691,7 +692,18 @@ func (c *sClient) runOnce(ex *exchange) {
 	wdone := make(chan struct{})
 	go func() {
 		defer close(wdone)
-		if _, err := conn.Write(buildRequestHead(ex)); err != nil {
+		head := buildRequestHead(ex)
+		if ex.headPause > 0 && len(head) > 20 {
+			// a slow client: the request head comes in two parts with a pause between them
+			if _, err := conn.Write(head[:len(head)/2]); err != nil {
+				return
+			}
+			if !env.sleep(ex.headPause) {
+				return
+			}
+			head = head[len(head)/2:]
+		}
+		if _, err := conn.Write(head); err != nil {
 			return
 		}
 		if ex.expect != "" {
